@@ -118,6 +118,8 @@ def run(ck, ctx):
     DB.attribution(ck, ctx, rule="loaded-as-recorded")
     from . import C18 as R18
     R18.flags(ck, ctx)
+    # the recorded hash is taken over mtimes stat()ed after the command ran (a step rewriting its own input converges)
+    D.record_discipline(ck, ctx)
 
 
 def run_config(ck, ctx):
